@@ -640,6 +640,32 @@ def c14_independent(res, rng):
                 _ok(res, sig)
                 if res["evaluations"] % 90 == 1:
                     res["samples"].append({"arg": aname, "output": oname, "operator": opname, "result": describe(r)[:120]})
+            # history: one pull-back closure of an argument-independent function called repeatedly, the caller
+            # accumulating into each gradient it received (it owns it) before asking again
+            res["evaluations"] += 1
+            sig = {"engine": "values", "family": "independent_repeat", "arg": aname, "out": oname}
+            case = {"kind": "independent_repeat", "arg": aname, "out": oname}
+            try:
+                with warnings.catch_warnings():
+                    warnings.simplefilter("ignore")
+                    vj, _y = make_vjp(f)(x)
+                    bad = None
+                    for k in range(3):
+                        r = vj(common.rand_like(rng, y_plain))
+                        d = is_zero_like(r, x)
+                        if d:
+                            bad = "call %d: %s: %s" % (k, d, describe(r)[:200])
+                            break
+                        for l in common.leaves(r):
+                            if isinstance(l, onp.ndarray) and l.flags.writeable and l.size:
+                                l += 1.0 + k
+            except Exception as e:
+                _viol(res, sig, "exception:" + type(e).__name__, case, "%s" % traceback.format_exc()[-300:])
+                continue
+            if bad:
+                _viol(res, sig, "nonzero_after_caller_accumulated", case, bad)
+            else:
+                _ok(res, sig)
 
 
 def _nograd_templates(name, rng):
@@ -659,6 +685,9 @@ def _nograd_templates(name, rng):
     return base + ex
 
 
+PINNED_NOGRAD = ['all', 'allclose', 'any', 'argmax', 'argmin', 'argpartition', 'argsort', 'argwhere', 'around', 'array_equal', 'array_equiv', 'ceil', 'count_nonzero', 'equal', 'fix', 'flatnonzero', 'floor', 'floor_divide', 'greater', 'greater_equal', 'isclose', 'iscomplex', 'iscomplexobj', 'isfinite', 'isinf', 'isnan', 'isneginf', 'isposinf', 'isreal', 'isscalar', 'less', 'less_equal', 'logical_and', 'logical_not', 'logical_or', 'logical_xor', 'ndim', 'nonzero', 'not_equal', 'ones_like', 'result_type', 'rint', 'round', 'searchsorted', 'shape', 'sign', 'size', 'trunc', 'zeros_like']
+
+
 def c14_nograd(res, rng):
     import autograd.numpy as anp
     from autograd.core import make_jvp, make_vjp
@@ -666,8 +695,15 @@ def c14_nograd(res, rng):
     from autograd.tracer import isbox
 
     res["info"]["nograd_functions"] = len(nograd_functions)
-    for fn in nograd_functions:
-        name = getattr(fn, "__name__", repr(fn))
+    # the monitored set is the non-differentiable list of the pinned tree by NAME, plus whatever the live list adds:
+    # a function that silently leaves the live list (or one of the two registration loops) is still examined
+    live = {getattr(fn, "__name__", repr(fn)): fn for fn in nograd_functions}
+    fns = dict(live)
+    for nm in PINNED_NOGRAD:
+        if nm not in fns and hasattr(anp, nm):
+            fns[nm] = getattr(anp, nm)
+    res["info"]["nograd_missing_from_live_list"] = sorted(set(PINNED_NOGRAD) - set(live))
+    for name, fn in fns.items():
         raw = getattr(onp, name, None)
         if raw is None:
             res["sets"].setdefault("nograd_without_numpy_name", set()).add(name)
@@ -755,8 +791,16 @@ def c14_compositions(res, rng):
         "floor_divide": lambda t: anp.floor_divide(t, 0.7), "argmax": lambda t: anp.argmax(t) * onp.ones(5), "count_nonzero": lambda t: anp.count_nonzero(t > 0) * onp.ones(5),
         "op_gt": lambda t: (t > 0.5) * 1.0, "size": lambda t: anp.size(t) * onp.ones(5), "isclose": lambda t: anp.isclose(t, 0.37),
     }
+    # conversions to an integer / boolean type are integer-valued and piecewise constant as well
+    # (reverse mode only: the tree defines no forward rule for astype, which fails loudly)
+    REV_ONLY = {"astype_int", "astype_bool", "astype_int32_kw"}
+    qs["astype_int"] = lambda t: t.astype(int)
+    qs["astype_bool"] = lambda t: t.astype(bool)
+    qs["astype_int32_kw"] = lambda t: t.astype(dtype=onp.int32)
     for name, q in qs.items():
         for mode in ("rev", "fwd"):
+            if mode == "fwd" and name in REV_ONLY:
+                continue
             res["evaluations"] += 1
             sig = {"engine": "values", "family": "composition", "q": name, "mode": mode}
             case = {"kind": "composition", "q": name, "mode": mode}
@@ -1016,6 +1060,9 @@ def replay(pid, case):
     elif k == "independent":
         c14_independent(res, rng)
         res["violations"] = [v for v in res["violations"] if all(v["case"].get(q) == case[q] for q in ("arg", "out", "op"))]
+    elif k == "independent_repeat":
+        c14_independent(res, rng)
+        res["violations"] = [v for v in res["violations"] if v["case"] == case]
     elif k in ("nograd", "nograd_constancy"):
         c14_nograd(res, rng)
         res["violations"] = [v for v in res["violations"] if v["case"].get("fn") == case["fn"] and v["case"]["kind"] == k and v["case"].get("template") == case.get("template") and v["case"].get("mode") == case.get("mode")]
